@@ -487,6 +487,9 @@ def run(rep, tier):
         rep.call(copy_cond, rep, prog, "C12.copy-cond")
         from . import c11 as _c11
         rep.call(_c11.source_columns, rep, prog, "C12.source-columns")
+        # the alpha path hands the passes a scratch copy of the source: same size, same crop box
+        from . import c09 as _c09
+        rep.call(_c09.sizing, rep, prog, "C12.scratch-box")
         rep.call(need_pass, rep, prog, "C12.need-pass")
         rep.call(none_none, rep, prog, "C12.none-none")
         rep.call(supersampling_guard, rep, prog, "C12.supersampling-guard")
